@@ -59,7 +59,7 @@ func (e *Eng) anchorClauses(call *ast.CallExpr) ([]AtClause, string) {
 func (e *Eng) indexCalls() {
 	e.callOrd = map[*ast.CallExpr]int{}
 	seen := map[string]int{}
-	ast.Inspect(e.fn.Body, func(n ast.Node) bool {
+	ast.Inspect(e.fnBody(), func(n ast.Node) bool {
 		if c, ok := n.(*ast.CallExpr); ok {
 			t := e.srcFull(c)
 			seen[t]++
@@ -236,11 +236,17 @@ func (e *Eng) evalCallInner(st *State, call *ast.CallExpr) []*Val {
 			e.oblige(st, "nopanic", "call-unknown "+shortKey(key), "false", call.Pos())
 		}
 		e.gap("call to %s without contract: results and heap havocked", key)
+		if e.con != nil && e.con.Pure {
+			e.oblige(st, "pure", "callee-unknown "+shortKey(key), "false", call.Pos())
+		}
 		e.havocHeap(st)
 		return results
 	}
 	if e.con != nil && e.con.NoPanic && !con.NoPanic {
 		e.oblige(st, "nopanic", "callee-may-panic "+shortKey(key), "false", call.Pos())
+	}
+	if e.con != nil && e.con.Pure && !con.Pure {
+		e.oblige(st, "pure", "callee-not-pure "+shortKey(key), "false", call.Pos())
 	}
 	env := map[string]*Val{}
 	for i := 0; i < sig.Params().Len() && i < len(args); i++ {
@@ -295,6 +301,29 @@ func (e *Eng) evalCallInner(st *State, call *ast.CallExpr) []*Val {
 		e.assume(st, g.T)
 	}
 	return results
+}
+
+// callIsPure: conversions, pure builtins and callees whose contract says `pure` do not write the heap.
+func (e *Eng) callIsPure(call *ast.CallExpr) bool {
+	fun := ast.Unparen(call.Fun)
+	if tv, ok := e.info.Types[fun]; ok && tv.IsType() {
+		return true
+	}
+	if id, ok := fun.(*ast.Ident); ok {
+		if _, isB := e.info.ObjectOf(id).(*types.Builtin); isB {
+			switch id.Name {
+			case "len", "cap", "min", "max", "recover", "panic", "new", "make":
+				return true
+			}
+			return false
+		}
+	}
+	key, sig, _ := calleeKey(e.info, call)
+	if sig == nil {
+		return false
+	}
+	con := e.contracts.ByKey[key]
+	return con != nil && con.Pure
 }
 
 func (e *Eng) havocAddrTaken(st *State, call *ast.CallExpr) {
